@@ -572,7 +572,13 @@ pub fn search(w: &World, mode: Mode, chk: &Check, max_states: usize) -> BfsResul
                     let mut nb = book.step(w, op, update_ok);
                     let mut founds = vec![];
                     match mode {
-                        Mode::C05 => founds.extend(oracle_c05(w, op, &res, &s, &before)),
+                        Mode::C05 => {
+                            founds.extend(oracle_c05(w, op, &res, &s, &before));
+                            // instrumented re-execution (C18): a panic of ANY operation matters
+                            if let (Err(p), true) = (&res, c18_mode().is_some() && !World::is_update(op) && !matches!(op, Op::Reset(_))) {
+                                founds.push(Found { sig: format!("panic op={}", w.op_name(op)), what: format!("{} panicked: {p}", w.op_name(op)) });
+                            }
+                        }
                         Mode::C08 => {
                             if let Err(p) = &res {
                                 founds.push(Found { sig: format!("panic op={}", w.op_name(op)), what: format!("{} panicked on a reused sentence: {p}", w.op_name(op)) });
@@ -653,7 +659,13 @@ pub fn replay_case(mode: Mode, case: &Value) -> Option<(String, String)> {
     let res = w.apply(&mut s, last);
     let nb = book.step(&w, last, res.as_ref().ok().and_then(|x| *x));
     let founds = match mode {
-        Mode::C05 => oracle_c05(&w, last, &res, &s, &before),
+        Mode::C05 => {
+            let mut f = oracle_c05(&w, last, &res, &s, &before);
+            if let (Err(p), true) = (&res, c18_mode().is_some() && !World::is_update(last) && !matches!(last, Op::Reset(_))) {
+                f.push(Found { sig: format!("panic op={}", w.op_name(last)), what: format!("{} panicked: {p}", w.op_name(last)) });
+            }
+            f
+        }
         Mode::C08 => {
             if let Err(p) = &res {
                 vec![Found { sig: format!("panic op={}", w.op_name(last)), what: format!("{} panicked on a reused sentence: {p}", w.op_name(last)) }]
